@@ -65,6 +65,45 @@ def shipped_modules(repo: Repo) -> list[tuple[FuncInfo, ast.Call, Module]]:
     return out
 
 
+def main_only_functions(mod) -> dict[str, ast.FunctionDef]:
+    """module-level functions of a script that are only ever called from its `if __name__ == "__main__":` block
+    (directly or through other such functions): they are part of the stand-alone entry path"""
+    mains = [s for s in mod.tree.body if isinstance(s, ast.If) and "__main__" in unparse(s.test) and "__channelexec__" not in unparse(s.test)]
+    funcs = {s.name: s for s in mod.tree.body if isinstance(s, ast.FunctionDef)}
+    if not mains:
+        return {}
+
+    def refs(tree) -> set[str]:
+        return {x.id for x in ast.walk(tree) if isinstance(x, ast.Name) and isinstance(x.ctx, ast.Load) and x.id in funcs}
+    in_main: set[str] = set()
+    for m in mains:
+        for s in m.body:
+            in_main |= refs(s)
+    changed = True
+    while changed:
+        changed = False
+        for n in list(in_main):
+            new = refs(funcs[n]) - in_main
+            if new:
+                in_main |= new
+                changed = True
+    # referenced from anywhere else in the module -> not main-only
+    elsewhere: set[str] = set()
+    for s in mod.tree.body:
+        if s in mains or (isinstance(s, ast.FunctionDef) and s.name in in_main):
+            continue
+        elsewhere |= refs(s)
+    changed = True
+    while changed:
+        changed = False
+        for n in list(elsewhere):
+            new = refs(funcs[n]) - elsewhere
+            if new:
+                elsewhere |= new
+                changed = True
+    return {n: funcs[n] for n in in_main - elsewhere}
+
+
 def sendexec_parts(repo, f, call: ast.Call) -> list[ast.AST]:
     """the source parts handed to sendexec(io, *parts), with hoisted locals and starred list displays expanded"""
     from ..util import expand
@@ -247,6 +286,12 @@ def check(ctx: Ctx) -> None:
                 # only the __main__ branch may differ
                 in_main = any(isinstance(p, ast.If) and "__main__" in unparse(p.test) and "__channelexec__" not in unparse(p.test)
                               and any(node is x or node in ast.walk(x) for x in p.body) for p in repo.ancestors(node))
+                if not in_main and fi is not None:
+                    mo = main_only_functions(mod)
+                    top_fn = fi
+                    while top_fn.parent is not None:
+                        top_fn = top_fn.parent
+                    in_main = top_fn.name in mo and mo[top_fn.name] is top_fn.node
                 if in_main:
                     continue
                 if level:
@@ -289,7 +334,7 @@ def check(ctx: Ctx) -> None:
         mains = [s for s in ss.tree.body if isinstance(s, ast.If) and "__main__" in unparse(s.test)]
         ob.require(len(mains) == 1, "socketserver: `if __name__ == '__main__'` block not found")
         main = mains[0]
-        scope_nodes = list(main.body)
+        scope_nodes = list(main.body) + [s for f_ in main_only_functions(ss).values() for s in f_.body]
         found = 0
         for st in ast.walk(ast.Module(body=scope_nodes, type_ignores=[])):
             if isinstance(st, (ast.Import, ast.ImportFrom)):
@@ -306,9 +351,12 @@ def check(ctx: Ctx) -> None:
                                          "(the documentation promises stand-alone use)")
                     continue
                 bound = {a.asname or a.name for a in st.names}
-                for x in ast.walk(main):
+                # after the try statement the names are bound as well if every handler leaves (return / raise / continue)
+                leaves = all(h.body and isinstance(h.body[-1], (ast.Return, ast.Raise, ast.Continue, ast.Break)) for h in tr.handlers)
+                holder = next((p for p in repo.ancestors(tr) if isinstance(p, (ast.FunctionDef, ast.If, ast.Module))), main)
+                for x in ast.walk(ast.Module(body=scope_nodes, type_ignores=[])):
                     if isinstance(x, ast.Name) and x.id in bound and isinstance(x.ctx, ast.Load):
-                        inside = any(p is tr for p in repo.ancestors(x))
+                        inside = any(p is tr for p in repo.ancestors(x)) or (leaves and any(p is holder for p in repo.ancestors(x)) and x.lineno > tr.lineno)
                         if not inside:
                             ob.violation(ss, x, f"{x.id!r} (bound only by the optional execnet import) is used outside the try statement")
         # top-level (non-guarded) execnet imports of the script
